@@ -89,6 +89,15 @@ def rule_units(ctx, f):
                 continue
             for name, l, op in bounds:
                 check_abs(ctx, u, b, fl, cfg, bi, l, op, key + "." + name, "the %s of the range passed to Backend::read" % name, t["span"])
+            # document-level readers (methods and closures of Storage, which knows the header position) never read from the very start of the
+            # buffer: a range without a start, or starting at the constant 0, takes in whatever precedes the header
+            owner = b["id"].split("::{closure")[0]
+            ob = f.bodies.get(owner, b)
+            if (ob.get("impl") or {}).get("self", "").startswith("file::Storage") or owner.startswith("file::Storage"):
+                st = [x for x in bounds if x[0] == "start"]
+                zero = (not st and "RangeFull" not in rty) or (st and st[0][1] is None and F.const_int(st[0][2]) == 0)
+                ctx.check(not zero, "C17-UNITS", key + ".from-header", "a document-level read starts at the beginning of the buffer instead of at the header position: "
+                          "bytes in front of `%PDF-` are taken for part of the document", t["span"], detail="range starts at (or after) start_offset")
         for k, (bi, t) in enumerate(ws):
             nwo += 1
             key = "%s#with_offset-%d" % (b["id"], k)
